@@ -490,6 +490,15 @@ func (t *tr) call(e *ast.CallExpr, en env) V {
 				return x
 			}
 			return t.bad("conversion of %s", x.T)
+		case "make":
+			if mt, ok := e.Args[0].(*ast.MapType); ok {
+				kt, ok1 := goTypeNames[t.w.render(mt.Key)]
+				vt, ok2 := goTypeNames[t.w.render(mt.Value)]
+				if ok1 && ok2 {
+					return V{"(fun _ => none)", "Map " + kt + " " + vt}
+				}
+			}
+			return t.bad("make(%s)", t.w.render(e.Args[0]))
 		case "append":
 			x := t.expr(e.Args[0], en)
 			if len(e.Args) == 2 && strings.HasPrefix(x.T, "List ") {
@@ -821,6 +830,14 @@ func (t *tr) stmts(list []ast.Stmt, en env, k cont) string {
 			return t.failf("expression statement %T", s.X)
 		}
 		callee := t.w.render(call.Fun)
+		if callee == "sort.Strings" && len(call.Args) == 1 {
+			if id, ok := call.Args[0].(*ast.Ident); ok {
+				if v, ok := en.m[id.Name]; ok && v.t == "List Acc" {
+					return fmt.Sprintf("let %s : %s := (Go.sortAcc %s)\n", v.lean, leanType(v.t), v.lean) + next(en)
+				}
+			}
+			return t.failf("sort.Strings of %s", t.w.render(call.Args[0]))
+		}
 		if callee == "sort.Search" && len(call.Args) == 2 {
 			if fl, ok := call.Args[1].(*ast.FuncLit); ok {
 				return t.sortSearch(call.Args[0], fl, en, next)
@@ -1201,8 +1218,16 @@ func (t *tr) assign0(s *ast.AssignStmt, en env) (string, env) {
 			}
 			out += fmt.Sprintf("let %s : %s := %s\n", n, leanType(ty), v.L)
 		case *ast.SelectorExpr:
-			// x.F = e  (x a local struct value)
-			base, ok := l.X.(*ast.Ident)
+			// x.F = e, x.F.G = e  (x a local struct value)
+			root := l.X
+			for {
+				if se, ok := root.(*ast.SelectorExpr); ok {
+					root = se.X
+					continue
+				}
+				break
+			}
+			base, ok := root.(*ast.Ident)
 			if !ok {
 				return t.failf("assignment to %s", t.w.render(l)), en
 			}
@@ -1210,15 +1235,26 @@ func (t *tr) assign0(s *ast.AssignStmt, en env) (string, env) {
 			if !ok {
 				return t.failf("assignment to field of unknown %s", base.Name), en
 			}
-			st, ok := setters[bv.t+"."+l.Sel.Name]
-			if !ok {
-				return t.failf("setter %s.%s", bv.t, l.Sel.Name), en
+			// rebuild from the inside out: newVal for l.X.Sel, then for its parent, …
+			cur := ast.Expr(l)
+			newVal := v
+			for {
+				se := cur.(*ast.SelectorExpr)
+				parent := t.expr(se.X, en)
+				st, ok := setters[parent.T+"."+se.Sel.Name]
+				if !ok {
+					return t.failf("setter %s.%s", parent.T, se.Sel.Name), en
+				}
+				if st.T != newVal.T {
+					return t.failf("setter %s.%s: %s, expected %s", parent.T, se.Sel.Name, newVal.T, st.T), en
+				}
+				newVal = V{"(" + strings.ReplaceAll(strings.ReplaceAll(st.L, "%1", parent.L), "%2", newVal.L) + ")", parent.T}
+				if _, isIdent := se.X.(*ast.Ident); isIdent {
+					break
+				}
+				cur = se.X
 			}
-			if st.T != v.T {
-				return t.failf("setter %s.%s: %s, expected %s", bv.t, l.Sel.Name, v.T, st.T), en
-			}
-			upd := strings.ReplaceAll(strings.ReplaceAll(st.L, "%1", bv.lean), "%2", v.L)
-			out += fmt.Sprintf("let %s : %s := %s\n", bv.lean, leanType(bv.t), upd)
+			out += fmt.Sprintf("let %s : %s := %s\n", bv.lean, leanType(bv.t), newVal.L)
 			// write-back through a pointer obtained from a map entry
 			if al, ok := t.u.Alias[base.Name]; ok {
 				bs, ok1 := en.m[al.Base]
@@ -1946,10 +1982,11 @@ var groupDeps = map[string][]string{
 	"Auctions": {"Pure"},
 	"Settle":   {"Pure"},
 	"Match":    {"Pure"},
+	"Payout":   {"Pure"},
 	"Server":   {"Pure", "Msgs", "Bids", "Auctions"},
 }
 
-var groupOrder = []string{"Pure", "Msgs", "Bids", "Auctions", "Settle", "Match", "Server"}
+var groupOrder = []string{"Pure", "Msgs", "Bids", "Auctions", "Settle", "Match", "Payout", "Server"}
 
 // translateUnits renders Generated/Code/<Group>.lean, one file per group of units.
 func (w *World) translateUnits() map[string]string {
@@ -1965,7 +2002,7 @@ func (w *World) translateUnits() map[string]string {
 		b.WriteString("  Each definition is the translation of the named Go function of /repo as it is NOW;\n")
 		b.WriteString("  Fundraising/Proofs/Tie/*.lean prove each equal to the hand-written model.\n-/\n")
 		b.WriteString("import Fundraising.Tables.GoSem\n")
-		if g == "Match" {
+		if g == "Match" || g == "Payout" {
 			b.WriteString("import Fundraising.Tables.GoSemMatch\n")
 		}
 		for _, d := range groupDeps[g] {
